@@ -140,6 +140,18 @@ class G:
             return {"k": "like", "l": self.col(scope, "text"), "p": r.choice(["x%", "%e%", "_", "it%", "%"])}
         if depth > 0:
             sub = self.select(depth - 1, single=True)
+            outer_tables = [s_ for s_ in scope if s_["k"] == "table"]
+            if r.random() < 0.5 and outer_tables and all(s_["k"] == "table" for s_ in sub["from"]) and not sub["joins"]:
+                # correlated: a separate where() call naming a column of the *outer* scope with a namesake inside,
+                # placed before or after the subquery's own where() call
+                inner = sub["from"][0]
+                o_ = r.choice(outer_tables)
+                name = r.choice(COLS)
+                outer_names = {(s_["alias"] or s_.get("t")) for s_ in scope}
+                if (inner["alias"] or inner["t"]) not in outer_names:
+                    sub["where2"] = {"k": "cmp", "o": "=", "l": {"k": "col", "src": inner["alias"] or inner["t"], "name": name},
+                                     "r": {"k": "col", "src": o_["alias"] or o_["t"], "name": name}}
+                    sub["where2_first"] = r.random() < 0.5
             return {"k": "insub", "l": self.expr(scope, 0, agg), "q": sub, "neg": r.random() < 0.3}
         return {"k": "cmp", "o": "=", "l": self.col(scope), "r": self.const()}
 
@@ -359,8 +371,11 @@ def ref_select(q):
         out += " %s JOIN %s" % ({"inner": "INNER", "left": "LEFT", "cross": "CROSS"}[j["how"]], ref_source(j["src"]))
         if j["on"] is not None:
             out += " ON " + ref_expr(j["on"], q)
-    if q["where"] is not None:
-        out += " WHERE " + ref_expr(q["where"], q)
+    ws = [q["where"]] if q["where"] is not None else []
+    if q.get("where2") is not None:
+        ws = ([q["where2"]] + ws) if q.get("where2_first") else (ws + [q["where2"]])
+    if ws:
+        out += " WHERE " + " AND ".join(ref_expr(w, q) for w in ws)
     if q["group"]:
         out += " GROUP BY " + ", ".join(ref_expr(g, q) for g in q["group"])
     if q["having"] is not None:
@@ -414,10 +429,19 @@ def ref_stmt(p):
 
 # ---------------------------------------------------------------------------------------------- pypika writer
 class PB:
-    def __init__(self):
+    def __init__(self, parent=None):
         self.r = registry()
         self.Q = self.r["SQLLiteQuery"]
         self.tables = {}
+        self.parent = parent
+
+    def table(self, name):
+        pb = self
+        while pb is not None:
+            if name in pb.tables:
+                return pb.tables[name]
+            pb = pb.parent
+        raise KeyError(name)
 
     def src_obj(self, s):
         key = s["alias"] or s["t"]
@@ -434,7 +458,7 @@ class PB:
         r = self.r
         k = e["k"]
         if k == "col":
-            return self.tables[e["src"]].field(e["name"])
+            return self.table(e["src"]).field(e["name"])
         if k == "const":
             return r["ValueWrapper"](e["v"]) if e["v"] is not None else r["NullValue"]()
         if k == "selref":
@@ -481,7 +505,7 @@ class PB:
             return l.notin(vs) if e["neg"] else l.isin(vs)
         if k == "insub":
             l = self.expr(e["l"], q, sel)
-            sub = PB().select(e["q"])
+            sub = PB(parent=self).select(e["q"])
             return l.notin(sub) if e["neg"] else l.isin(sub)
         if k == "between":
             return self.expr(e["l"], q, sel).between(e["lo"]["v"], e["hi"]["v"])
@@ -510,8 +534,12 @@ class PB:
                        for t_, spec in zip(sel, q["select"])])
         if q["distinct"]:
             b = b.distinct()
+        if q.get("where2") is not None and q.get("where2_first"):
+            b = b.where(self.expr(q["where2"], q, sel))
         if q["where"] is not None:
             b = b.where(self.expr(q["where"], q, sel))
+        if q.get("where2") is not None and not q.get("where2_first"):
+            b = b.where(self.expr(q["where2"], q, sel))
         for g in q["group"]:
             # the grouped expression is the aliased select term itself when it was selected
             match = [s for s, spec in zip(sel, q["select"]) if spec["e"] is g]
